@@ -346,7 +346,15 @@ fn wide_valid(t: &mut Tape, prefix: &str, n_decls: usize) -> (String, Vec<String
                 let j = t.below(i + 1);
                 order.swap(i, j);
             }
-            let fields: Vec<String> = order.iter().map(|i| format!("{}: {}", members[*i].0, lits[*i])).collect();
+            let mut fields: Vec<String> = order.iter().map(|i| format!("{}: {}", members[*i].0, lits[*i])).collect();
+            // (legal: a field given more than once, the last value wins)
+            if t.chance(1, 4) {
+                for _ in 0..1 + t.below(2) {
+                    let i = t.below(n);
+                    let at = t.below(fields.len() + 1);
+                    fields.insert(at, format!("{}: {}", members[i].0, lits[i]));
+                }
+            }
             stmts.push(format!("{} := {} {{ {} }}", var, name, fields.join(", ")));
             for _ in 0..1 + t.below(3) {
                 let i = t.below(n);
